@@ -14,6 +14,8 @@ pub enum Error {
     IncompleteType(String),
     #[error("Incomplete packet header {0:?}: {1}")]
     IncompleteHeader(Type, String),
+    #[error("Invalid packet header {0:?}: {1}")]
+    InvalidHeader(Type, String),
     #[error("Incomplete packet body {0:?}: {1}")]
     IncompletePacket(Type, String),
     #[error("Sampling of {0:?} packet content less than 20 bytes, only {1} bytes available")]
